@@ -177,6 +177,12 @@ func (u *URL) String() string {
 		label, _ := json.Marshal(u.Params.FilterLabel)
 		label = label[1 : len(label)-1]
 
+		// A filter that starts with a curly bracket is a JSON object, so
+		// the one of a label has to be escaped.
+		if label[0] == '{' {
+			label = append([]byte("\\u007b"), label[1:]...)
+		}
+
 		urlParams = append(urlParams, "filter="+url.QueryEscape(string(label)))
 	}
 
